@@ -7,7 +7,7 @@
    write or retained at the last write; a late message is attributed only to the member still
    sitting at the sender's leaf with the same key.  Statements only. *)
 From Coq Require Import NArith List.
-From MlsV Require Import Storage StorageProofs Effects ProcessEffects EffectsInst.
+From MlsV Require Import Storage StorageProofs Effects ProcessEffects EffectsInst LateSenderGen LateSenderGenProofs.
 Import ListNotations.
 Local Open Scope N_scope.
 
@@ -53,6 +53,17 @@ Example C19_ex :
   /\ sql_write 2 s1 8 [(2, 12); (3, 13)] [(1, 21)] = SOk s2.
 Proof. eexists. eexists. vm_compute. repeat split. Qed.
 
+(* the late-sender rule TRANSLATED from insert_past_epoch (what is archived: one key per leaf slot) and
+   validate_sender_signature_key_from_prior_epoch (how it is compared) on every run *)
+Theorem C19_translated_late_sender_rule : forall old_leaves cur_leaves i k,
+  nth i old_leaves None = Some k ->
+  (gen_late_sender_ok (gen_archived_keys old_leaves) cur_leaves i = true <-> nth i cur_leaves None = Some k).
+Proof. exact translated_late_sender_rule. Qed.
+
+Theorem C19_translated_late_sender_check_is_the_model : forall old cur i,
+  gen_late_sender_ok old cur i = late_sender_ok old cur i.
+Proof. exact gen_late_sender_ok_is_model. Qed.
+
 Print Assumptions C19_providers_agree.
 Print Assumptions C19_lookup_agree.
 Print Assumptions C19_max_agree.
@@ -73,3 +84,5 @@ Theorem C19_repository_lookup_has_the_modelled_shape : shape ev_repo_get =
                 [EFail 0; EAlt [[EAlt [[EMut "self.pending_commit.updates.push()" 0]; []]]; []]]]]]].
 Proof. exact repo_get_shape. Qed.
 Print Assumptions C19_repository_lookup_has_the_modelled_shape.
+Print Assumptions C19_translated_late_sender_rule.
+Print Assumptions C19_translated_late_sender_check_is_the_model.
